@@ -128,7 +128,11 @@ func concurrentDecoders(c *Collector, key string, inputs []string) {
 	if len(inputs) == 0 {
 		return
 	}
-	f, err := os.CreateTemp("", "harness-concurrent-*.txt")
+	dir := os.Getenv("HARNESS_OUT") // the run's own output directory (falls back to the system's temporary directory)
+	if dir != "" {
+		os.MkdirAll(dir, 0o755)
+	}
+	f, err := os.CreateTemp(dir, "harness-concurrent-*.txt")
 	if err != nil {
 		return
 	}
